@@ -214,6 +214,34 @@ def run_srvedit(line):
             '|'.join(['srv', kind, f'{f.CID.cls}:{f.CID.id}', at_call.hex(), '0', retries, delay, txs, rxs]))
 
 
+def run_srvreuse(line):
+    """srvreuse|<Class>|<payload hex>|<field>|<a>|<b>…: ONE request object sent again and again (each time acknowledged at once),
+    one field given the next value in between - every transmission is the encoding of the field values at the time of ITS call"""
+    p = line.split('|')
+    name, h, field, values = p[1], p[2], p[3], [int(v) for v in p[4:]]
+    cls = find_class(name)
+    ack = frame(5, 1, [cls.CID.cls, cls.CID.id])
+    FrameFactory.destroy()
+    CLK.ticks = T0
+    s = ScriptSrv([True] * len(values), [(1, ack)] * len(values), 4000000)
+    s.setup()
+    s.set_retries(0)
+    s.set_retry_delay(125)
+    f = build_frame(name, h, '')
+    out = []
+    for v in values:
+        setattr(f.f, field, v)
+        n0 = len(s.sent)
+        rs = call(s, 'set', f)
+        fresh = build_frame(name, h, '')
+        setattr(fresh.f, field, v)
+        fresh.pack()
+        canon = frame(cls.CID.cls, cls.CID.id, bytes(fresh.data))
+        out.append(('ok' if s.sent[n0:] == [canon] else 'NOT-THE-ENCODING-OF-THE-VALUES-AT-THE-CALL:' + b''.join(s.sent[n0:]).hex()) +
+                   ('' if rs.startswith('5/1:') else '!' + rs[:30]))
+    return ' '.join(out)
+
+
 def parse_srv(line):
     p = line.split('|')
     kind, cid, pl, resp, retries, delay, txs, rxs = p[1:9]
@@ -233,6 +261,8 @@ def time_bound_ticks(kind, cls_, retries, delay, tmax):
 
 
 def real_srv(line):
+    if line.startswith('srvreuse|'):
+        return run_srvreuse(line)
     if line.startswith('srvedit|'):
         return run_srvedit(line)[0]
     kind, cls_, id_, payload, resp, retries, delay, txl, rx = parse_srv(line)
@@ -310,6 +340,11 @@ def check_result(kind, cls_, id_, resp_tag, result, stream):
 
 
 def oracles_srv(line, real_out):
+    if line.startswith('srvreuse|'):
+        ok = all(t == 'ok' for t in real_out.split(' '))
+        return [{'prop': q, 'ok': ok, 'expected': 'ok ' * (line.count('|') - 3), 'observed': real_out[:300],
+                 'what': 'a request object that is sent again after one field was changed is transmitted as the encoding of its field values at the time '
+                         'of that call'} for q in ('C12', 'C08')], []
     if line.startswith('srvedit|'):
         retries = int(line.split('|')[5])
         ok = tok(real_out, 'same') == 'true' and int(tok(real_out, 'sent') or 99) <= retries + 1
@@ -433,6 +468,21 @@ def gen_srv(rng, n, profile):
     if profile == 'mixed':
         for ln in gen_srvedit(rng, max(20, n // 10)):
             yield ln
+        # one request object re-used; the values a field takes in between include pairs with the same hash() (-1 / -2, n / n + 2**61 - 1)
+        from comp_codec import CLASSES, field_kinds
+        M = (1 << 61) - 1
+        for name in ('UbxCfgEsflaSet', 'UbxCfgNav5', 'UbxCfgRate', 'UbxCfgTp5', 'UbxEsfMeas', 'UbxMgaIniTimeUtc'):
+            size = CLASSES.get(name)
+            if not size:
+                continue
+            try:
+                kinds = [k for k in field_kinds(name, bytes(size)) if k[1] != 'text']
+            except Exception:
+                continue
+            for fname, k, w in rng.sample(kinds, min(len(kinds), 3)):
+                vals = [-1, -2, -3, -2, -1] if k.islower() else [1, 2, 1, 0, 255, 0]
+                yield f'srvreuse|{name}|{"00" * size}|{fname}|' + '|'.join(map(str, vals))
+                yield f'srvreuse|{name}|{"ff" * size if k.islower() else "00" * size}|{fname}|' + '|'.join(map(str, vals[1:]))
     real_polls = sorted(poll_classes().items())
     for _ in range(n):
         kind = rng.choice(['set', 'set', 'mga', 'poll', 'poll', 'poll', 'faf'])
@@ -1918,7 +1968,7 @@ def gen_gpsdtx(rng, n, profile):
 
 COMPONENTS = {
     'srv': {'real': real_srv, 'oracles': oracles_srv, 'gen': gen_srv,
-            'model_line': lambda line: run_srvedit(line)[1] if line.startswith('srvedit|') else line},
+            'model_line': lambda line: run_srvedit(line)[1] if line.startswith('srvedit|') else 'no-model' if line.startswith('srvreuse|') else line},
     'seq': {'real': real_seqs, 'oracles': oracles_seqs, 'gen': gen_seqs, 'model_line': model_line_seqs},
     'level': {'real': real_level, 'oracles': oracles_level, 'gen': gen_level, 'model_line': model_line_level},
     'tty': {'real': real_tty, 'oracles': oracles_tty, 'gen': gen_tty},
